@@ -14,15 +14,15 @@ set_option linter.unusedSimpArgs false
 namespace Logrange.Props.TRPartition
 open Go.Sem Logrange Logrange.Translated.Partition Logrange.Proofs.TrSized
 
-def absAdv (s : chkStatus_checkPosOrAdvance_chkSt) : Selector.ChkSt :=
+def absAdv (s : chkStatus) : Selector.ChkSt :=
   { minPos := s.minPos.toNat, maxPos := s.maxPos.toNat, count := s.count.toNat }
-def absRed (s : chkStatus_checkPosOrReduce_chkSt) : Selector.ChkSt :=
+def absRed (s : chkStatus) : Selector.ChkSt :=
   { minPos := s.minPos.toNat, maxPos := s.maxPos.toNat, count := s.count.toNat }
 def absRes (r : UInt32 × Bool) : Nat × Bool := (r.1.toNat, r.2)
 def toRd (s : Selector.ChkSt) : Rd.ChkSt := { minPos := s.minPos, maxPos := s.maxPos, count := s.count }
 
 /-- `(*chkStatus).checkPosOrAdvance` = C02's `Selector.checkAdvance` -/
-theorem tr_checkPosOrAdvance_eq (st : chkStatus_checkPosOrAdvance_chkSt) (pos : UInt32) :
+theorem tr_checkPosOrAdvance_eq (st : chkStatus) (pos : UInt32) :
     ∃ r, chkStatus_checkPosOrAdvance st pos = .ok r ∧ absRes r = Selector.checkAdvance (absAdv st) pos.toNat := by
   simp only [chkStatus_checkPosOrAdvance, Selector.checkAdvance, absAdv, absRes,
     UInt32.lt_iff_toNat_lt, UInt32.le_iff_toNat_le, ge_iff_le, gt_iff_lt]
@@ -34,7 +34,7 @@ theorem tr_checkPosOrAdvance_eq (st : chkStatus_checkPosOrAdvance_chkSt) (pos : 
 example : chkStatus_checkPosOrAdvance { minPos := 3, maxPos := 7, count := 10 } 1 = .ok (3, true) := by decide +kernel
 
 /-- `(*chkStatus).checkPosOrReduce` = C02's `Selector.checkReduce` (including the wrap of `count - 1` at `count = 0`) -/
-theorem tr_checkPosOrReduce_eq (st : chkStatus_checkPosOrReduce_chkSt) (pos : UInt32) :
+theorem tr_checkPosOrReduce_eq (st : chkStatus) (pos : UInt32) :
     ∃ r, chkStatus_checkPosOrReduce st pos = .ok r ∧ absRes r = Selector.checkReduce (absRed st) pos.toNat := by
   unfold chkStatus_checkPosOrReduce Selector.checkReduce absRed absRes
   refine ⟨_, rfl, ?_⟩
